@@ -186,7 +186,10 @@ def _worker_chunk(args):
                 break
             seed = derive_seed(*(base + (idx,)))
             try:
-                res = run_one(driver, cfg, seed=seed, timeout=cfg.get('run_timeout', 120))
+                if cfg.get('_explicit') is not None:
+                    res = run_one(driver, cfg, replay=cfg['_explicit'][idx], timeout=cfg.get('run_timeout', 120))
+                else:
+                    res = run_one(driver, cfg, seed=seed, timeout=cfg.get('run_timeout', 120))
                 c = res.compact()
                 c['index'] = idx
                 c['seed'] = seed
@@ -242,12 +245,13 @@ class Totals(object):
 
 
 def run_batch(driver, cfg, tier, budget_s=None, max_runs=None, workers=None, label=None,
-              stop_on_violation=True, progress=True):
+              stop_on_violation=True, progress=True, explicit=None):
     """Seeded search: run indices 0,1,2.. until the budget or max_runs is used up."""
     workers = workers or n_workers()
     base = (verif_seed(), driver.property_id, label or driver.name, tier)
     _DRIVER[0], _CFG[0] = driver, cfg
     cfg['_deadline'] = (time.time() + budget_s) if budget_s else None
+    cfg['_explicit'] = explicit      # explicit choice lists (complete sweeps) instead of seeds
     totals = Totals()
     chunk = cfg.get('chunk', 20)
     t0 = time.time()
